@@ -558,6 +558,7 @@ func (t *genTable[Obj]) Changes(txn WriteTxn) (ChangeIterator[Obj], error) {
 
 		// Don't observe any past deletions.
 		deleteRevision: t.Revision(txn),
+		baseRevision:   t.Revision(txn),
 		table:          t,
 		watch:          closedWatchChannel,
 	}
